@@ -9,6 +9,8 @@ import PMC.Model.CTL
 import PMC.Model.LTL
 import PMC.Model.CTLS
 import PMC.Model.BDD
+import PMC.Model.Parser
+import PMC.Generated.Grammar
 open PMC
 
 /-! ### decoding -/
@@ -243,6 +245,14 @@ def bddHistory (names : Array String) (ops : List String) : List String :=
     | _ => (pool, "bad-op" :: outs)) (#[], [])
   outs.reverse
 
+/-- the generated Lark tables of a logic's parser -/
+def tablesOf : Logic → Parser.Tables
+  | .PL => Parser.tablesPL | .CTL => Parser.tablesCTL | .LTL => Parser.tablesLTL | .CTLS => Parser.tablesCTLS
+
+/-- `PARSE|<logic>|<text>`: text as space-separated decimal code points (empty = empty string);
+    answer `OK <S-expression>` or `ERR UnexpectedToken <pos>` / `ERR UnexpectedCharacters <pos>` -/
+def decText (s : String) : List Char := (natList s).map Char.ofNat
+
 /-! ### dispatch -/
 
 def step (line : String) : String :=
@@ -303,6 +313,10 @@ def step (line : String) : String :=
       (match decLogic m, decFm f, decFm g with
        | some m, some f, some g => s!"{Fm.pyEq m f g} {f.beq g}"
        | _, _, _ => "bad-op")
+  | ["PARSE", m, text] =>
+      (match decLogic m with
+       | some m => encExcept encFm (Parser.parse (tablesOf m) (decText text))
+       | none => "bad-op")
   | ["BDD", names, ops] =>
       " ; ".intercalate (bddHistory (words names).toArray ((ops.splitOn ";").map (·.trimAscii.toString)))
   | _ => "bad-op"
